@@ -30,6 +30,9 @@ CHECKS["C14"]=dict(engine="node", design="5/C14", note=_node_note,
 CHECKS["C19"]=dict(engine="cycle", design="5/C19", note=_cyc_note,
   text="Differential seeded search: the same two-replica scenario (incl. listing errors, scale errors, unready replicas, different placements of the same targets) is run as [A,B], [B] and [A] with per-replica schedules; everything sent to a replica's shards and manager must be identical with and without the other replica; all cycle oracles are additionally evaluated per replica.")
 
+CHECKS["C09"]=dict(engine="node", design="5/C09", note="Trusted: RLIMIT_FSIZE and strace syscall injection behave as documented in this kernel; the update runs without the injector callbacks (only the store is at stake); no power-loss model (kill / partial write / full disk only).",
+  text="Crash-point and write-fault injection below the process, at the syscall boundary, against the real TargetsManager on a real directory: for every byte offset N of small stores (complete sub-sweep) and drawn N of large ones the store write is cut by RLIMIT_FSIZE; the write Load performs at start is cut likewise; the same update runs in a separate OS process with a cut and is SIGKILLed by strace on entry to every syscall touching the store files; after each fault a fresh start must succeed and resume the acknowledged or the interrupted assignment, and a second start must agree. Seeded search over assignment pairs (escaping, sizes, states, idle transitions, old-format store).")
+
 NOT_YET = {
 }
 
